@@ -39,6 +39,32 @@ def save_parameters(
             os.remove(file_name + '.old')
 
 
+def keep_other_entries(file_name: str, entries: list) -> list:
+    r"""Entries of an existing checkpoint file that ``entries`` does not replace.
+
+    Several algorithms of one configuration can write to the same file (they all
+    default to ``checkpoint.json``): an algorithm that saves its state must not
+    erase the state another one left there.
+
+    :param str file_name: checkpoint file path
+    :param list entries: algorithm states (dict) and parameters about to be written
+    :return: the entries of the file whose ID is not in ``entries``, followed by
+        ``entries``
+    """
+    if not os.path.lexists(file_name):
+        return entries
+    try:
+        with open(file_name) as fp:
+            existing = json.load(fp)
+    except (OSError, ValueError):
+        return entries
+    if not isinstance(existing, list):
+        return entries
+    ids = {e['id'] if isinstance(e, dict) else e.id for e in entries}
+    kept = [e for e in existing if isinstance(e, dict) and e.get('id') not in ids]
+    return kept + entries
+
+
 def pack_tensor(parameters: List[Parameter], tensor: torch.Tensor) -> None:
     r"""Pack a tensor into a list of Parameter."""
     start = 0
